@@ -2,6 +2,7 @@ package c12
 
 import (
 	"fmt"
+	"os"
 	"sort"
 	"strings"
 	"testing"
@@ -162,8 +163,12 @@ func histories(t *testing.T, shard int) {
 							continue
 						}
 						key := "uploaded-chunk-evicted"
-						if st[fi].everUnpinned {
-							key = "uploaded-evicted-after-unpin"
+						// the chunk lost its protection through the unpin of an uploaded file that
+						// contains it (f itself or another file sharing the chunk)
+						for gi, g := range files {
+							if st[gi].uploaded && st[gi].everUnpinned && g.Chunks[ch] {
+								key = "uploaded-evicted-after-unpin"
+							}
 						}
 						c.Viol(key, fmt.Sprintf("collection deleted chunk %s of locally uploaded file f%d", ch[:12], f.ID), witness(map[string]interface{}{"file": f.Desc()}))
 						ok = false
@@ -412,6 +417,11 @@ func histories(t *testing.T, shard int) {
 		capClass := "small"
 		if capacity >= 18 {
 			capClass = "large"
+		}
+		if os.Getenv("VERIF_DEBUG_HISTORY") != "" {
+			for _, h := range hist {
+				fmt.Printf("DEBUG %+v\n", h)
+			}
 		}
 		c.End(fmt.Sprintf("cap=%s/evicting=%d/pinnedAtEvict=%d/shared=%d/%s", capClass, min(evicting, 3), min(withPinned, 2), min(withShared, 2), strings.Join(ks, "+")), evicting > 0)
 		if i < 1 {
